@@ -161,6 +161,15 @@ def run_c10(ck):
     for i in range(30 if quick else 400):
         base.append(("multibucket%d" % i, {"mode": "asm", "files": {"main.asm": multibucket_program(rng)}, "roots": ["main.asm"],
                                            "formats": ["binary"], "want": {"messages": True, "printed": True}}))
+    # directives with several faults of the same kind at once (unknown fields of a bank definition, several defines that
+    # name nothing): the messages come in the order of the text, whatever container held them in between
+    for i in range(12 if quick else 100):
+        names_ = rng.sample(["foo", "bar", "baz", "qux", "start", "length", "origin", "fillwith", "n0", "n1", "n2", "n3"], rng.randrange(2, 7))
+        fields = ["%s = %d" % (n, rng.randrange(0, 9)) for n in names_] + ["outp = 0", "addr = 0"]
+        rng.shuffle(fields)
+        sep = rng.choice([", ", "\n    "])
+        base.append(("manyfields%d" % i, {"mode": "asm", "files": {"main.asm": "#bankdef b\n{\n    " + sep.join(fields) + "\n}\n#d8 1\n"},
+                                          "roots": ["main.asm"], "formats": ["binary"], "want": {"messages": True, "printed": True}}))
     # parameters whose names differ only by the prefix that asm blocks put in front of local names
     for i in range(8 if quick else 60):
         a, b = rng.choice([("x", "__x"), ("v", "__v"), ("__n", "n")])
